@@ -34,6 +34,7 @@ package pod
 //@ func HasPodSchedulerIssue
 //@   requires pod != nil
 //@   modifies nothing
+//@   ensures [C03] only-unscheduled-or-terminating-pods-are-stuck: result ==> pod.Spec.NodeName == "" || pod.ObjectMeta.DeletionTimestamp != nil
 //@
 //@ func HighestRestartCount
 //@   pure
